@@ -1334,6 +1334,10 @@ func (s *Store) GetRelatedAtTime(from *RelatedFrom, limit int) ([]qresult, *Rela
 				// set at end of iteration so that we jump over the item the previous page gave as continuation, while still
 				// adding it to seenIds
 				if !hasReachedStartKey {
+					if del != 1 {
+						// an earlier page returned this relation, do not return it again for another dataset
+						added[predID][relatedID] = true
+					}
 					if bytes.Equal(k[:40], from.RelationIndexFromKey) {
 						hasReachedStartKey = true
 					}
